@@ -86,6 +86,9 @@ def main():
         for s2 in KELVIN:
             for x, y in ((0, 0), (0, 5), (100, 100), (-40, -40), (300, 27), (32, 0), (0, 32)):
                 tp.append(({"m": ["int", str(x), "1"], "u": [[None, s1, 1]]}, {"m": [rng.choice(["int", "float"]), str(y), "1"], "u": [[None, s2, 1]]}))
+                if (x, y) in ((0, 5), (300, 27), (-40, -40), (0, 32)):      # Decimal readings on both sides, and negative ones against non-negative ones
+                    tp.append(({"m": ["dec", str(x), "1"], "u": [[None, s1, 1]]}, {"m": ["dec", str(y), "1"], "u": [[None, s2, 1]]}))
+                    tp.append(({"m": [rng.choice(["int", "float", "dec"]), "-10", "1"], "u": [[None, s1, 1]]}, {"m": [rng.choice(["int", "float"]), str(abs(y) + 5), "1"], "u": [[None, s2, 1]]}))
     table({"systems": True}, tp, "temperature", kval)
     # readings on different scales that are close but not equal (1e-9 .. 1e-10 of the temperature apart: a million times float rounding):
     # exactly the one of <, ==, > the exact values dictate
